@@ -7,6 +7,16 @@ BASE = "cd /repo && /venv/bin/python -m pytest -ra -q -p no:cacheprovider --time
 
 # property -> (category, technique, level text, level_note, design_ref)
 CLAIMED = {
+    "C03": (
+        "proof",
+        "contract-based deductive verification: GenVC (real generators called on symbolic-leaf operands, emitted IR term denoted, obligations for all operand words discharged by z3/cvc5) + exhaustive evaluation of the pow-bound kernel",
+        "Per numeric type and operand shape, universally over 256-bit operand words: safe_add/sub/mul/div/mod of both front ends revert iff the exact result is not representable and "
+        "otherwise return it; convert() between all ordered pairs of one-word types in both front ends follows docs/types.rst and both agree; calculate_largest_base exhaustive. "
+        "A few signed-multiplication leaves (int256 both-negative, decimal) are reported undecided, not proved.",
+        "Trusted: spec_vyper.py/spec_evm.py, z3/cvc5, the term denotation (sem/irterm.py). Operand-shape partition (leaf + listed literals) is a stated bound. "
+        "safe_pow: only the bound kernels; calculate_largest_power is a bounded stand-in.",
+        "DESIGN.md 3/C03",
+    ),
     "C14": (
         "proof",
         "contract-based deductive verification: VCs generated from the live Python source (PyVC) of the Venom analysis kernels, discharged by z3/cvc5",
